@@ -30,13 +30,41 @@ def tf (b : Bool) : String := if b then "t" else "f"
 def hexList (l : List Bytes) : String := commas (l.map toHex)
 def valList (l : List Val) : String := commas (l.map showValStr)
 
+/-- the Go value an ANY field holds after a successful parse, from the RawValue the model keeps (tokens as `showVal`;
+    `T` for a time.Time, `n` for nil) -/
+def showAny : Val → String
+  | .raw cls tag compound inner _ =>
+    if !compound && cls == 0 then
+      let sv (r : Res Val) : String := match r with | .ok v => showValStr v | _ => "?"
+      if tag = 19 ∨ tag = 18 ∨ tag = 22 ∨ tag = 20 ∨ tag = 12 ∨ tag = 4 then "x" ++ toHex inner
+      else if tag = 30 then sv (parseBMPString inner)
+      else if tag = 2 then sv (resInt (parseInt64 true inner))
+      else if tag = 3 then sv (parseBitString inner)
+      else if tag = 6 then sv (parseOID inner)
+      else if tag = 23 ∨ tag = 24 then "T"
+      else "n"
+    else "n"
+  | _ => "?"
+
+def showATV : Val → String
+  | .vcons t (.vcons v .vnil) => showValStr t ++ "=" ++ showAny v
+  | _ => "?"
+
+def chainList : Val → List Val
+  | .vcons v r => v :: chainList r
+  | _ => []
+
+/-- a decoded RDNSequence: RDNs joined by `_`, the attributes of one RDN by `+` -/
+def showRDN (d : Val) : String :=
+  "_".intercalate ((chainList d).map (fun rdn => "+".intercalate ((chainList rdn).map showATV)))
+
 def showGN (g : GN) : String :=
   "o[" ++ valList g.other ++ "]e[" ++ hexList g.email ++ "]d[" ++ hexList g.dns ++ "]u[" ++ hexList g.uri ++ "]n[" ++
-  commas (g.dir.map (fun d => toString (chainLength d))) ++ "]p[" ++ valList g.edi ++ "]i[" ++ hexList g.ip ++ "]r[" ++
+  commas (g.dir.map showRDN) ++ "]p[" ++ valList g.edi ++ "]i[" ++ hexList g.ip ++ "]r[" ++
   valList g.rid ++ "]"
 
 def showNCData (e : NCE) : String :=
-  if e.kind = 4 then toString (chainLength e.data)
+  if e.kind = 4 then showRDN e.data
   else if e.kind = 3 ∨ e.kind = 5 ∨ e.kind = 8 then showValStr e.data
   else match e.data with
     | .bytes b => toHex b
@@ -57,7 +85,7 @@ def showCert (c : Cert) : String :=
     "san=" ++ showGN c.san, "ian=" ++ showGN c.ian, "failed=[" ++ valList c.failedNames ++ "]",
     "ncc=" ++ tf c.ncCritical, "perm=[" ++ showNC c.permitted ++ "]", "excl=[" ++ showNC c.excluded ++ "]",
     "crl=[" ++ hexList c.crldp ++ "]", "aki=" ++ showValStr c.aki, "ski=" ++ showValStr c.ski,
-    "eku=" ++ toString c.ekuCount,
+    "eku=" ++ toString c.ekuKnown ++ "[" ++ valList c.ekuUnknown ++ "]",
     "pol=" ++ (match c.policies with | none => "n" | some l => "p[" ++ commas (l.map showPol) ++ "]"),
     "ocsp=[" ++ hexList c.ocsp ++ "]", "iss=[" ++ hexList c.issuers ++ "]",
     "sct=" ++ toString c.scts, "pre=" ++ tf c.isPrecert,
@@ -91,17 +119,25 @@ def subOf (tbl : List (Ext × String × String)) : Sub :=
   { tor := fun perm v => let t := look perm v; if t.startsWith "n" then tokCount t else none
     sct := fun perm v =>
       let t := look perm v
-      match tokCount t with
-      | some n => (n, t.startsWith "n")
-      | none => (0, false)
+      parseSCTList (fun i _ => (t.toList.drop (i + 1)).head? == some '1') perm v
     qcParse := fun perm v => let t := look perm v; if t.startsWith "n" then some () else none }
 
 def showKey (r : Res Key) : String :=
   match r with
   | .ok (.rsa n e) => "ok rsa " ++ toString n ++ " " ++ toString e
-  | .ok (.other t) => "ok other " ++ toString t
+  | .ok (.dsa y p q g) => "ok dsa " ++ toString y ++ " " ++ toString p ++ " " ++ toString q ++ " " ++ toString g
+  | .ok (.ecdsa c pt) => "ok ecdsa " ++ toString c ++ " " ++ toHex pt
+  | .ok (.ed25519 b) => "ok ed25519 " ++ toHex b
+  | .ok (.x25519 b) => "ok x25519 " ++ toHex b
+  | .ok .none => "ok nil"
   | .err => "err"
   | .panic => "panic"
+
+/-- `elliptic.Unmarshal(curve, data) != nil` for the four curves, read off the case line (`0`/`1` per curve) -/
+def ecOkOf (bits : String) (c : Nat) (_ : Bytes) : Bool :=
+  match bits.toList.drop c with
+  | ch :: _ => ch == '1'
+  | [] => false
 
 def showGNRes (r : GN × Bool) : String :=
   tf r.2 ++ " " ++ showGN r.1 ++ " failed=[" ++ valList r.1.failed ++ "]"
@@ -116,6 +152,11 @@ def handle (args : List String) : String :=
     (match ofHex h with
      | some bs => showKey (parsePublicKeyRSA false bs) ++ "|" ++ showKey (parsePublicKeyRSA true bs)
      | none => "bad-op")
+  | ["xpa", algo, h, ph, bits] =>
+    (match algo.toNat?, ofHex h, ofHex ph with
+     | some a, some bs, some ps =>
+       showKey (parsePublicKey (ecOkOf bits) false a bs ps) ++ "|" ++ showKey (parsePublicKey (ecOkOf bits) true a bs ps)
+     | _, _, _ => "bad-op")
   | ["xgn", h] =>
     (match ofHex h with
      | some bs => showGNRes (parseGeneralNames false bs) ++ "|" ++ showGNRes (parseGeneralNames true bs)
